@@ -11,7 +11,7 @@ pub fn props() -> Vec<Prop> {
         id: "C05",
         run: c05,
         tools: Some(no_io_trace),
-        rule: "oracle 1: Memfs::abs under every cwd of a bounded tree and Stdfs::abs under the matching process cwd are compared with a string-level reference (expand, trim protocol, Go-clean, resolve leading '..' against the cwd) for every string up to length 6 (quick) / 8 (thorough) over {/ . ~ $ : a e-acute}, scheme-prefixed variants and seeded random longer strings, with HOME in {/h, /h/e-acute, /} (one value per worker process); the result must be absolute, free of '.', '..', '//' and trailing '/', idempotent, and equal on both backends. oracle 2 (spelling independence): for prepared states x every path-taking method x every spelling of the argument (relative to the cwd, ./x, x/, x/., doubled separator, x/../x, file://, ~, $HOME, ${HOME}) the call on one instance and the call with abs(argument) on an identical instance must give equal results and equal complete states - Memfs through the hook snapshot, Stdfs through the disk observer. oracle 3 (no IO): strace -e trace=%file of a child that brackets 10^4 abs() calls per backend between marker syscalls; nothing may appear between the markers. distinct_nontrivial = distinct (backend, cwd, string class, outcome class) tuples + (method, spelling kind).",
+        rule: "oracle 1: Memfs::abs under every cwd of a bounded tree and Stdfs::abs under the matching process cwd are compared with a string-level reference (expand, trim protocol, Go-clean, resolve leading '..' against the cwd) for every string up to length 6 (quick) / 8 (thorough) over {/ . ~ $ : a e-acute}, scheme-prefixed variants and seeded random longer strings, with HOME in {/h, /h/e-acute, /} (one value per worker process); the result must be absolute, free of '.', '..', '//' and trailing '/', idempotent, and equal on both backends. oracle 2 (spelling independence): for prepared states x every path-taking method x every spelling of the argument (relative to the cwd, ./x, x/, x/., doubled separator, x/../x, file://, ~, $HOME, ${HOME}) the call on one instance and the call with abs(argument) on an identical instance must give equal results and equal complete states - Memfs through the hook snapshot, Stdfs through the disk observer. oracle 3 (no IO): strace -e trace=%file of a child that brackets 10^4 abs() calls per backend between marker syscalls; nothing may appear between the markers (getcwd is allowed for the real backend only in the section whose inputs are relative; a third section holds only absolute, ~, $HOME and scheme-prefixed inputs); the same child then removes its own working directory and the absolute inputs must still give what the in-memory backend gives, / must still exist and set_cwd must lead out. distinct_nontrivial = distinct (backend, cwd, string class, outcome class) tuples + (method, spelling kind).",
         assumptions: &["non-UTF-8 paths are outside 'every non-empty path string'", "strings whose variable name is not delimited unambiguously are not judged", "'no IO' is decided on the syscall trace of the workload that ran"],
         shards_quick: 8,
         shards_thorough: 16,
@@ -362,7 +362,7 @@ fn no_io_trace(_ctx: &Ctx, rep: &mut Report) -> Vec<J> {
             rep.inconclusive(&format!("strace could not be started: {}", e));
         },
         Ok(o) if !o.status.success() => rep.inconclusive(&format!("strace child failed: {:?}", o.status)),
-        Ok(_) => {
+        Ok(o) => {
             let text = std::fs::read_to_string(&log).unwrap_or_default();
             let mut section: Option<String> = None;
             let mut seen_sections = 0;
@@ -381,6 +381,7 @@ fn no_io_trace(_ctx: &Ctx, rep: &mut Report) -> Vec<J> {
                 if let Some(s) = &section {
                     // getcwd is how the real backend learns the cwd: the one call the statement's "no IO" allows
                     let is_getcwd = line.split_whitespace().nth(1).map(|x| x.starts_with("getcwd(")).unwrap_or(false) || line.trim_start().starts_with("getcwd(");
+                    // (section "stdfsabs" holds only inputs that do not depend on the cwd: there it is IO like any other)
                     if s == "stdfs" && is_getcwd {
                         continue;
                     }
@@ -392,10 +393,33 @@ fn no_io_trace(_ctx: &Ctx, rep: &mut Report) -> Vec<J> {
             rep.evals += 1;
             rep.key_str("no-io|memfs");
             rep.key_str("no-io|stdfs");
+            rep.key_str("no-io|stdfsabs");
             rep.count("strace_sections_seen", seen_sections as u64);
             rep.count("strace_file_syscalls_between_markers", inside.len() as u64);
-            if seen_sections < 2 {
-                rep.inconclusive("the strace log does not show both marker sections");
+            if seen_sections < 3 {
+                rep.inconclusive("the strace log does not show all three marker sections");
+            }
+            // the part of the child that ran with its working directory removed
+            let stdout = String::from_utf8_lossy(&o.stdout).to_string();
+            let mut rm_lines = 0;
+            for l in stdout.lines().filter(|l| l.starts_with("RMCWD\t")) {
+                let f: Vec<&str> = l.split('\t').collect();
+                if f.len() < 4 {
+                    continue;
+                }
+                rm_lines += 1;
+                rep.evals += 1;
+                rep.key_str(&format!("rmcwd|{}|{}", f[1], if f[2].starts_with("Ok") { "ok" } else { "err" }));
+                if f[2] != f[3] {
+                    rep.violation(
+                        &format!("abs:stdfs-with-removed-cwd({}):{}→{}", f[1], f[3].split('(').next().unwrap_or(""), f[2].split('(').next().unwrap_or("")),
+                        J::obj(vec![("call", J::s(f[1])), ("observed", J::s(f[2])), ("expected", J::s(f[3]))]),
+                    );
+                }
+            }
+            rep.count("removed_cwd_observations", rm_lines as u64);
+            if rm_lines == 0 {
+                rep.inconclusive("the removed-cwd part of the child reported nothing");
             }
             for (s, l) in inside.iter().take(3) {
                 rep.violation(&format!("abs:{}:no-IO→file-syscall", s), J::obj(vec![("backend", J::s(s)), ("syscall", J::s(l))]));
@@ -430,4 +454,28 @@ pub fn absio_child() {
         let _ = Stdfs::abs(inputs[i % inputs.len()]);
     }
     marker("/__verif_end");
+    // inputs that name a place without the help of the cwd: not even the cwd may be asked for
+    let absolute = ["/", "/a/b", "/a/../b", "~/c", "$HOME/d", "file:///e", "/does/not/exist", "//a//b/./c/..", "file:///usr/share/", "/a/b/../../c"];
+    marker("/__verif_begin_stdfsabs");
+    for i in 0..10_000 {
+        let _ = Stdfs::abs(absolute[i % absolute.len()]);
+    }
+    marker("/__verif_end");
+
+    // The same inputs from a working directory that was removed under the process: the answer cannot depend on it
+    // (what the in-memory backend says from any cwd is the reference), and the way out of that directory still works.
+    let scratch = format!("{}/runs/C05/rmcwd-{}", crate::verif_dir(), std::process::id());
+    let show = |r: RvResult<PathBuf>| match r {
+        Ok(p) => format!("Ok({})", p.display()),
+        Err(e) => format!("Err({})", crate::fsops::err_kind(&e)),
+    };
+    if Stdfs::mkdir_p(&scratch).is_ok() && Stdfs::set_cwd(&scratch).is_ok() && Stdfs::remove_all(&scratch).is_ok() {
+        for a in absolute.iter() {
+            println!("RMCWD\tabs {}\t{}\t{}", a, show(Stdfs::abs(a)), show(mem.abs(a)));
+        }
+        println!("RMCWD\texists /\tOk({})\tOk(true)", Stdfs::exists("/"));
+        println!("RMCWD\tis_dir /\tOk({})\tOk(true)", Stdfs::is_dir("/"));
+        let back = crate::verif_dir();
+        println!("RMCWD\tset_cwd <verif>\t{}\tOk({})", show(Stdfs::set_cwd(&back)), back);
+    }
 }
